@@ -141,7 +141,9 @@
 (hy-repr-register [hy.models.String str hy.models.Bytes bytes] (fn [x]
   (setv r (.lstrip (_base-repr x) "ub"))
   (if (is-not None (getattr x "brackets" None))
-    f"#[{x.brackets}[{x}]{x.brackets}]"
+    ; The reader drops a newline that directly follows the opening
+    ; delimiter, so protect a leading newline with another one.
+    (+ "#[" x.brackets "[" (if (.startswith x "\n") "\n" "") x "]" x.brackets "]")
     (+
       (if (isinstance x bytes) "b" "")
       (if (.startswith "\"" r)
